@@ -140,80 +140,22 @@ func (r *ref) step(f []string, op, o string) fw.Verdict {
 		for k := range r.files { // a compaction re-blocks the key; the layout facts are void
 			r.files[k], r.written[k] = 1, 0
 		}
-	case "del":
-		tmin, tmax := i64(f[3]), i64(f[4])
-		for k, m := range r.data {
-			series := strings.SplitN(k, "/", 2)[0]
-			sm := strings.SplitN(series, "|", 2)
-			if sm[0] != f[1] {
-				continue
+	case "del", "snapdel", "dropm":
+		tmin, tmax := int64(-1<<63), int64(1<<63-1)
+		meas, pred := f[1], "-"
+		if f[0] != "dropm" {
+			pred = f[2]
+			if f[3] != "-inf" {
+				tmin = i64(f[3])
 			}
-			if f[2] != "-" {
-				found := false
-				for _, kv := range strings.Split(sm[1], ",") {
-					if kv == f[2] {
-						found = true
-					}
-				}
-				if !found {
-					continue
-				}
-			}
-			for t := range m {
-				if t >= tmin && t <= tmax {
-					delete(m, t)
-				}
+			if f[4] != "+inf" {
+				tmax = i64(f[4])
 			}
 		}
-		// a selected series left without any point leaves the index; a measurement whose
-		// last series left is forgotten, field types included
-		for k, m := range r.data {
-			if len(m) == 0 {
-				delete(r.data, k)
-			}
-		}
-		hadM := map[string]bool{}
-		for _, ms := range r.index {
-			hadM[ms] = true
-		}
-		for series, ms := range r.index {
-			sm := strings.SplitN(series, "|", 2)
-			if ms != f[1] {
-				continue
-			}
-			if f[2] != "-" {
-				found := false
-				for _, kv := range strings.Split(sm[1], ",") {
-					if kv == f[2] {
-						found = true
-					}
-				}
-				if !found {
-					continue
-				}
-			}
-			has := false
-			for k := range r.data {
-				if strings.HasPrefix(k, series+"/") {
-					has = true
-				}
-			}
-			if !has {
-				delete(r.index, series)
-			}
-		}
-		hasM := map[string]bool{}
-		for _, ms := range r.index {
-			hasM[ms] = true
-		}
-		for ms := range hadM {
-			if !hasM[ms] {
-				for k := range r.ftypes {
-					if strings.HasPrefix(k, ms+"/") {
-						delete(r.ftypes, k)
-					}
-				}
-			}
+		r.deleteRange(meas, pred, tmin, tmax)
+	case "series", "meas", "tagkeys", "tagvals":
+		if v := r.listing(f, op, o); !v.OK {
+			return v
 		}
 	case "read":
 		k := f[1] + "|" + f[2] + "/" + f[3]
@@ -313,3 +255,129 @@ func refValueOp(f []string) string {
 	}
 	return show(out)
 }
+
+func selects(series, meas, pred string) bool {
+	sm := strings.SplitN(series, "|", 2)
+	if meas != "*" && sm[0] != meas {
+		return false
+	}
+	if pred == "-" {
+		return true
+	}
+	for _, kv := range strings.Split(sm[1], ",") {
+		if kv == pred {
+			return true
+		}
+	}
+	return false
+}
+
+func (r *ref) deleteRange(meas, pred string, tmin, tmax int64) {
+	for k, m := range r.data {
+		series := strings.SplitN(k, "/", 2)[0]
+		if !selects(series, meas, pred) {
+			continue
+		}
+		for t := range m {
+			if t >= tmin && t <= tmax {
+				delete(m, t)
+			}
+		}
+	}
+	// a selected series left without any point leaves the index; a measurement whose
+	// last series left is forgotten, field types included
+	for k, m := range r.data {
+		if len(m) == 0 {
+			delete(r.data, k)
+		}
+	}
+	hadM := map[string]bool{}
+	for _, ms := range r.index {
+		hadM[ms] = true
+	}
+	for series := range r.index {
+		if !selects(series, meas, pred) {
+			continue
+		}
+		if !r.hasData(series) {
+			delete(r.index, series)
+		}
+	}
+	hasM := map[string]bool{}
+	for _, ms := range r.index {
+		hasM[ms] = true
+	}
+	for ms := range hadM {
+		if !hasM[ms] {
+			for k := range r.ftypes {
+				if strings.HasPrefix(k, ms+"/") {
+					delete(r.ftypes, k)
+				}
+			}
+		}
+	}
+}
+
+func (r *ref) hasData(series string) bool {
+	for k := range r.data {
+		if strings.HasPrefix(k, series+"/") {
+			return true
+		}
+	}
+	return false
+}
+
+// listing: what the property says about listings — everything that still has points is
+// listed; nothing is listed that has no series left in the index (a series whose points were
+// all removed by a delete or drop has left the index). Series registered by a rejected write
+// (never any points) are in r.index and therefore allowed either way.
+func (r *ref) listing(f []string, op, o string) fw.Verdict {
+	got := map[string]bool{}
+	if o != "-" {
+		for _, x := range strings.Split(o, ";") {
+			got[x] = true
+		}
+	}
+	must, may := map[string]bool{}, map[string]bool{}
+	add := func(series string, m map[string]bool) {
+		sm := strings.SplitN(series, "|", 2)
+		switch f[0] {
+		case "series":
+			m[series] = true
+		case "meas":
+			m[sm[0]] = true
+		case "tagkeys", "tagvals":
+			if sm[0] != f[1] || sm[1] == "-" {
+				return
+			}
+			for _, kv := range strings.Split(sm[1], ",") {
+				x := strings.SplitN(kv, "=", 2)
+				if f[0] == "tagkeys" {
+					m[x[0]] = true
+				} else if x[0] == f[2] {
+					m[x[1]] = true
+				}
+			}
+		}
+	}
+	for series := range r.index {
+		add(series, may)
+		if r.hasData(series) {
+			add(series, must)
+		}
+	}
+	for x := range must {
+		if !got[x] {
+			return fw.Verdict{OK: false, Why: fmt.Sprintf("%s answered %.300s: %q still has points but is not listed", op, o, x), Signature: f[0] + " listing drops something that still has points"}
+		}
+	}
+	for x := range got {
+		if !may[x] {
+			return fw.Verdict{OK: false, Why: fmt.Sprintf("%s answered %.300s: %q is listed although all its points were removed", op, o, x), Signature: f[0] + " listing keeps something whose points were all removed"}
+		}
+	}
+	return fw.Verdict{OK: true}
+}
+
+// OracleOps runs the reference over a case (for other properties built on the same shard ops).
+func OracleOps(c fw.Case, out []string) fw.Verdict { return Prop{}.Oracle(c, out) }
